@@ -6,7 +6,7 @@ use oxidd::{Manager, ManagerRef, Subst};
 
 use crate::ext::BoolExt;
 use crate::session::{Session, Slot, BIN_OPS};
-use crate::util::{catch, json, write_summary, Args, Rng, TraceOut};
+use crate::util::{catch, json, write_summary, Args, Rng, TraceOut, Value};
 
 #[derive(Clone, Debug)]
 enum Scen {
@@ -15,6 +15,11 @@ enum Scen {
     Ite,
     Quant(&'static str),
     AQuant(&'static str, &'static str),
+    /// apply-and-quantify / binary operator whose operands make the operator a
+    /// terminal case (constant, identity or negation of one operand):
+    /// pattern 0 = (f, T), 1 = (f, F), 2 = (T, f), 3 = (F, f), 4 = (f, f)
+    AQuantT(&'static str, &'static str, u8),
+    BinT(&'static str, u8),
     Restrict,
     Subst,
     PickDd,
@@ -31,6 +36,19 @@ fn scenarios<F: BoolExt>() -> Vec<Scen> {
         v.extend([Scen::Quant("exists"), Scen::Quant("unique"), Scen::AQuant("forall", "or"),
                   Scen::AQuant("exists", "and"), Scen::Subst]);
     }
+    if F::HAS_QUANT {
+        for (i, op) in BIN_OPS.iter().enumerate() {
+            for pat in 0..5u8 {
+                let q = ["exists", "forall", "unique"][(i + pat as usize) % 3];
+                v.push(Scen::AQuantT(q, op, pat));
+            }
+        }
+    }
+    for op in ["xor", "nand", "imp", "equiv"] {
+        for pat in 0..5u8 {
+            v.push(Scen::BinT(op, pat));
+        }
+    }
     if F::HAS_ZOPS {
         v.extend([Scen::ZVar("subset1"), Scen::ZVar("change"), Scen::ZBin("union"), Scen::ZBin("diff")]);
     }
@@ -43,6 +61,8 @@ struct Setup {
     h: Slot,
     cube: Slot,
     lits: Slot,
+    t: Slot,
+    fls: Slot,
     ballast: Vec<Slot>,
 }
 
@@ -77,7 +97,19 @@ fn setup<F: BoolExt>(s: &mut Session<F>, seed: u64) -> Option<Setup> {
         acc2 = s.bin("xor", t, acc)?;
         ballast.push(acc2);
     }
-    Some(Setup { f, g, h, cube, lits, ballast })
+    let t = s.konst(true);
+    let fls = s.konst(false);
+    Some(Setup { f, g, h, cube, lits, t, fls, ballast })
+}
+
+fn pattern(su: &Setup, pat: u8) -> (Slot, Slot) {
+    match pat {
+        0 => (su.f, su.t),
+        1 => (su.f, su.fls),
+        2 => (su.t, su.f),
+        3 => (su.fls, su.f),
+        _ => (su.f, su.f),
+    }
 }
 
 fn run_op<F: BoolExt>(s: &mut Session<F>, sc: &Scen, su: &Setup) -> Option<Slot> {
@@ -91,6 +123,16 @@ fn run_op<F: BoolExt>(s: &mut Session<F>, sc: &Scen, su: &Setup) -> Option<Slot>
         Scen::AQuant(q, op) => s.op(&format!("apply_{q}"), &[f, g, su.cube], json!({ "bop": op }), |s| {
             s.get(f).apply_quant(q, op, s.get(g), s.get(su.cube))
         }),
+        Scen::AQuantT(q, op, pat) => {
+            let (a, b) = pattern(su, *pat);
+            s.op(&format!("apply_{q}"), &[a, b, su.cube], json!({ "bop": op }), |s| {
+                s.get(a).apply_quant(q, op, s.get(b), s.get(su.cube))
+            })
+        }
+        Scen::BinT(op, pat) => {
+            let (a, b) = pattern(su, *pat);
+            s.bin(op, a, b)
+        }
         Scen::Restrict => s.op("restrict", &[f, su.lits], json!({}), |s| s.get(f).restrict(s.get(su.lits))),
         Scen::Subst => {
             let (h1, r1) = s.hold_ext(g);
@@ -128,7 +170,11 @@ pub fn oom<F: BoolExt>(args: &Args) {
     let seeds: Vec<u64> = if thorough { (0..8).map(|i| seed * 100 + i).collect() } else { vec![seed * 100, seed * 100 + 1] };
     for &sd in &seeds {
         for sc in scenarios::<F>() {
-            for threads in if thorough { vec![1u32, 4] } else { vec![1u32, 3] } {
+            let terminal_case = matches!(sc, Scen::AQuantT(..) | Scen::BinT(..));
+            if terminal_case && !thorough && sd != seeds[0] {
+                continue;
+            }
+            for threads in if thorough { vec![1u32, 4] } else if terminal_case { vec![1u32] } else { vec![1u32, 3] } {
                 // measure: nodes after the setup and after the operation, no gc
                 let (p_setup, p_total) = {
                     let mut sink = TraceOut::new(&format!("{dir}/measure"), "m", usize::MAX);
@@ -246,4 +292,198 @@ pub fn oomabort<F: BoolExt>(args: &Args) {
     }
     out.finish();
     write_summary(&dir, &format!("oomabort-{}", F::KIND), &out, json!({"rows":1,"nontrivial":1}));
+}
+
+
+/// fill the (empty) manager with nodes created one at a time until an
+/// allocation fails; returns the number of inner nodes at that point.
+/// Deterministic for a given manager state, no events.
+fn fill_to_capacity<F: BoolExt>(s: &Session<F>) -> usize {
+    let n = s.n;
+    let r = catch(|| {
+        let (l2v, _) = s.order();
+        let mut vars: Vec<F> = Vec::new();
+        for v in 0..n {
+            match s.mref.with_manager_shared(|m| F::var(m, v)) {
+                Ok(x) => vars.push(x),
+                Err(_) => return s.mref.with_manager_shared(|m| m.num_inner_nodes()),
+            }
+        }
+        let (t, f) = s.mref.with_manager_shared(|m| (F::t(m), F::f(m)));
+        let mut pool: Vec<F> = vec![t, f];
+        // bottom-up: ite(x, a, b) with a, b below x is one new node
+        for lvl in (0..n).rev() {
+            let x = &vars[l2v[lvl as usize] as usize];
+            let below = pool.clone();
+            let mut made = 0usize;
+            'pairs: for a in &below {
+                for b in &below {
+                    if a == b {
+                        continue;
+                    }
+                    match x.ite(a, b) {
+                        Ok(r) => pool.push(r),
+                        Err(_) => return s.mref.with_manager_shared(|m| m.num_inner_nodes()),
+                    }
+                    made += 1;
+                    if made > 40_000 {
+                        break 'pairs;
+                    }
+                }
+            }
+        }
+        // not full (cannot happen for the capacities used): report what is there
+        s.mref.with_manager_shared(|m| m.num_inner_nodes())
+    });
+    // every handle created above is gone: collect without an event (the
+    // trace specification never saw these nodes)
+    let _ = catch(|| s.mref.with_manager_shared(|m| m.gc()));
+    r.unwrap_or(usize::MAX)
+}
+
+/// C05 / C14: after any history, dropping every handle and collecting makes
+/// the full node capacity available again: the manager can be filled exactly
+/// as far as a fresh one.
+pub fn capprobe<F: BoolExt>(args: &Args) {
+    let dir = args.get("out", "/verif/out/tmp");
+    let seed = args.num("seed", 1);
+    let thorough = args.get("tier", "quick") == "thorough";
+    let mut out = TraceOut::new(&dir, &format!("capprobe-{}", F::KIND), 3000);
+    let mut rng = Rng::new(seed ^ 0xca9);
+    let mut cases = 0u64;
+    let count = if thorough { 120 } else { 24 };
+    for h in 0..count {
+        let cap = [64usize, 100, 128, 257, 512][rng.below(5)];
+        let threads = if thorough && h % 3 == 2 { 2u32 } else { 1 };
+        let n = 10u32;
+        let mut s: Session<F> = Session::new_tagged(&mut out, cap, [1usize, 16, 256][rng.below(3)], threads,
+                                                    if threads > 1 { "mt" } else { "" });
+        s.add_vars(n);
+        let fresh = fill_to_capacity(&s);
+        s.snap();
+        // random phase: build, drop, collect, then operations that create exactly one node
+        let rounds = 2 + rng.below(3);
+        for _ in 0..rounds {
+            if s.dead {
+                break;
+            }
+            let mut guard = 0;
+            while !s.dead && guard < 60 {
+                guard += 1;
+                let used = s.mref.with_manager_shared(|m| m.num_inner_nodes());
+                if used * 10 > cap * 7 {
+                    break;
+                }
+                let live = s.live();
+                if live.len() < 3 {
+                    let v = rng.below(n as usize) as u32;
+                    s.var(v);
+                    continue;
+                }
+                let (a, b) = (live[rng.below(live.len())], live[rng.below(live.len())]);
+                if s.bin(BIN_OPS[rng.below(8)], a, b).is_none() {
+                    break;
+                }
+            }
+            // drop most handles, collect: at least two nodes die
+            let live = s.live();
+            for (i, &x) in live.iter().enumerate() {
+                if i % 4 != 0 {
+                    s.drop_h(x);
+                }
+            }
+            s.gc();
+            s.snap();
+            // single-node operations, each in a manager session of its own
+            let k = 1 + rng.below(3);
+            for _ in 0..k {
+                let v = rng.below(n as usize) as u32;
+                if rng.chance(1, 2) {
+                    s.var(v);
+                } else {
+                    s.not_var(v);
+                }
+            }
+            let live = s.live();
+            if live.len() >= 2 && rng.chance(1, 2) {
+                let (a, b) = (live[rng.below(live.len())], live[rng.below(live.len())]);
+                s.bin("and", a, b);
+            }
+        }
+        if s.dead {
+            continue;
+        }
+        s.obs();
+        for x in s.live() {
+            s.drop_h(x);
+        }
+        s.gc();
+        s.snap();
+        let filled = fill_to_capacity(&s);
+        cases += 1;
+        s.out.emit(json!({"ev":"probe","cap":cap,"fresh":fresh,"filled":filled,"thr":threads}));
+        s.snap();
+    }
+    out.finish();
+    write_summary(&dir, &format!("capprobe-{}", F::KIND), &out, json!({"rows":cases,"nontrivial":cases}));
+}
+
+/// GcThread.tla (beyond the listed properties): replay of the model's
+/// counterexample schedules on the real manager: the last reference is
+/// dropped (a) right after creation, (b) after the collector had time to go
+/// to sleep, (c) while a background collection is likely to run.  Reports
+/// how many threads are still alive afterwards (informational, no event).
+pub fn gcthread(args: &Args) {
+    use oxidd::bdd::BDDFunction;
+    use oxidd::BooleanFunction;
+    let dir = args.get("out", "/verif/out/tmp");
+    let n = args.num("count", 100) as usize;
+    let threads = || std::fs::read_dir("/proc/self/task").map(|d| d.count()).unwrap_or(0);
+    let settle = |base: usize| {
+        // the collector needs a moment to wake up and exit
+        for _ in 0..100 {
+            if threads() <= base {
+                break;
+            }
+            std::thread::sleep(std::time::Duration::from_millis(20));
+        }
+        threads().saturating_sub(base)
+    };
+    let base = threads();
+    let mut res = serde_json::Map::new();
+    for (name, delay_us) in [("immediate", 0u64), ("after_2ms", 2000), ("after_20ms", 20000)] {
+        for _ in 0..n {
+            let m = oxidd::bdd::new_manager(1 << 10, 1 << 6, 1);
+            m.with_manager_exclusive(|m| {
+                m.add_vars(2);
+            });
+            let x = m.with_manager_shared(|m| BDDFunction::var(m, 0).unwrap());
+            if delay_us > 0 {
+                std::thread::sleep(std::time::Duration::from_micros(delay_us));
+            }
+            drop(x);
+            drop(m);
+        }
+        res.insert(name.to_string(), json!({"managers": n, "leaked_threads": settle(base)}));
+    }
+    // (c) garbage across the high-water mark, then drop at once
+    for _ in 0..n {
+        let m = oxidd::bdd::new_manager(128, 64, 1);
+        m.with_manager_exclusive(|m| {
+            m.add_vars(12);
+        });
+        let mut acc = m.with_manager_shared(|m| BDDFunction::var(m, 0).unwrap());
+        for v in 1..12 {
+            let x = m.with_manager_shared(|m| BDDFunction::var(m, v).unwrap());
+            match acc.xor(&x) {
+                Ok(r) => acc = r,
+                Err(_) => break,
+            }
+        }
+        drop(acc);
+        drop(m);
+    }
+    res.insert("during_gc".to_string(), json!({"managers": n, "leaked_threads": settle(base)}));
+    let out = TraceOut::new(&dir, "gcthread", usize::MAX);
+    write_summary(&dir, "gcthread", &out, Value::Object(res));
 }
